@@ -727,6 +727,10 @@ func c13(c *an.Ctx) {
 		}
 	})
 
+	c.Check("R-PROV", "each value passes the column Valuer exactly once: MakeTester keeps the filter's own values (Tester.Test converts them), Table.driverValues stores only Valuer results (no value bypasses it), and the integer branch of Scanner.Scan accepts every value sql.NullInt64 can hold", 3, func(o *an.O) {
+		ruleValuerOnce(c, o)
+	})
+
 	c.Check("R-PAIR", "MakeTester collects column and value in lock step; Tester.Test compares per column with driverValuesEqual; byte slices compared by content", 4, func(o *an.O) {
 		mt := c.NeedFunc(sg, "(*Schema).MakeTester")
 		blocks := map[string]*ssa.BasicBlock{}
@@ -866,5 +870,124 @@ func ruleParseBinlogRow(c *an.Ctx, o *an.O) {
 				o.FailAt(i, "the binlog row is read although its column count differs from the expected one")
 			}
 		})
+	}
+}
+
+// ruleValuerOnce (shared by C13, C07 and C10).
+func ruleValuerOnce(c *an.Ctx, o *an.O) {
+	p := c.P
+	// MakeTester: the values it collects are the values of the filter parameter itself
+	mt := c.NeedFunc(sg, "(*Schema).MakeTester")
+	filterParam := ssa.Value(mt.Params[len(mt.Params)-1])
+	fromFilter := func(v ssa.Value) bool {
+		v = an.StripConv(v)
+		switch x := v.(type) {
+		case *ssa.Extract: // value of `for name, value := range filter`
+			if nx, ok := x.Tuple.(*ssa.Next); ok && x.Index == 2 {
+				if r, ok := nx.Iter.(*ssa.Range); ok {
+					return r.X == filterParam
+				}
+			}
+		case *ssa.Lookup:
+			return x.X == filterParam
+		}
+		return false
+	}
+	nVals := 0
+	an.Instrs(mt, func(i ssa.Instruction) {
+		call, ok := i.(*ssa.Call)
+		if !ok {
+			return
+		}
+		b, ok := call.Call.Value.(*ssa.Builtin)
+		if !ok || b.Name() != "append" || call.Type().String() != "[]interface{}" {
+			return
+		}
+		el := singleElem(call.Call.Args[1])
+		if el == nil {
+			return
+		}
+		nVals++
+		o.Site(i)
+		if !fromFilter(el) {
+			o.FailAt(i, "MakeTester stores %s instead of the filter's own value: Tester.Test applies the column Valuer to the stored value, so a value that was already converted is converted twice (a json or binary column never matches again and its live queries are never invalidated)", an.Short(an.Expr(el), 60))
+		}
+	})
+	// also through a tester literal built from a converted map
+	for _, l := range an.StructLits(mt, "tester") {
+		if v := l.Fields["values"]; v != nil {
+			o.Site(l.Alloc)
+			for _, leaf := range phiLeaves(v) {
+				if call, ok := leaf.(*ssa.Call); ok {
+					if bi, ok := call.Call.Value.(*ssa.Builtin); ok && bi.Name() == "append" {
+						continue
+					}
+				}
+				if _, ok := leaf.(*ssa.Slice); ok {
+					continue
+				}
+				if _, ok := leaf.(*ssa.MakeSlice); ok {
+					continue
+				}
+			}
+		}
+	}
+	if nVals == 0 {
+		o.Fail(p.Pos(mt.Pos()), "MakeTester no longer collects the filter values")
+	}
+	// driverValues: every stored value is the result of the column Valuer
+	dvs := c.NeedFunc(sg, "(*Table).driverValues")
+	nUpd := 0
+	an.Instrs(dvs, func(i ssa.Instruction) {
+		mu, ok := i.(*ssa.MapUpdate)
+		if !ok {
+			return
+		}
+		nUpd++
+		o.Site(i)
+		okV := false
+		if ex, ok := an.StripConv(mu.Value).(*ssa.Extract); ok && ex.Index == 0 {
+			if call, ok := ex.Tuple.(*ssa.Call); ok {
+				if f := an.CalleeFunc(call.Common()); f != nil && f.Name() == "Value" {
+					okV = true
+				}
+			}
+		}
+		if !okV {
+			o.FailAt(i, "Table.driverValues stores %s without passing it through the column Valuer: a value the Valuer would change (implicitnull zero values, json / string / binary tagged columns) is matched and sent differently by the batched path than by a single query", an.Short(an.Expr(mu.Value), 60))
+		}
+	})
+	if nUpd == 0 {
+		o.Fail(p.Pos(dvs.Pos()), "Table.driverValues stores nothing")
+	}
+	// Scanner.Scan, integer kinds: no value that NullInt64 scanned is rejected
+	sc := c.NeedFunc(fieldsPkg, "(*Scanner).Scan")
+	var intScan ssa.Instruction
+	an.Instrs(sc, func(i ssa.Instruction) {
+		if cc := an.CallOf(i); cc != nil {
+			if f := an.CalleeFunc(cc); f != nil && f.Name() == "Scan" && len(cc.Args) > 0 && strings.Contains(cc.Args[0].Type().String(), "NullInt64") {
+				intScan = i
+			}
+		}
+	})
+	if intScan == nil {
+		o.Fail(p.Pos(sc.Pos()), "Scanner.Scan no longer reads integer columns through sql.NullInt64")
+		return
+	}
+	o.Site(intScan)
+	blk := an.NewBlocker()
+	an.BlockSuccessEdges(sc, blk, []ssa.Instruction{intScan})
+	// from the success edge of the NullInt64 scan no error return is reachable
+	for _, nt := range an.NilTests(sc, intScan.(ssa.Value)) {
+		r := an.Reach(sc, nt.NilSucc.Instrs[0], an.NewBlocker())
+		for _, e := range an.Exits(sc, false) {
+			ret, ok := e.(*ssa.Return)
+			if !ok || !(r[e] || e.Block() == nt.NilSucc) {
+				continue
+			}
+			if !isConstNil(an.ResultAt(ret, 0)) {
+				o.FailAt(e, "Scanner.Scan rejects an integer that the driver delivered: unsigned columns arrive as signed integers of the column's width from the binlog and as negative int64 from Valuer.Value, so values with the top bit set would no longer decode")
+			}
+		}
 	}
 }
